@@ -241,7 +241,7 @@ class Models(object):
                      'isscalar', 'clip', 'cumsum', 'mean', 'sort', 'argsort', 'copy', 'meshgrid', 'allclose',
                      'isclose', 'expand_dims', 'broadcast_to', 'array_equal', 'count_nonzero', 'trapz',
                      'nanmedian', 'flip', 'tile', 'repeat', 'unravel_index', 'cumprod', 'take', 'ascontiguousarray',
-                     'column_stack', 'issubdtype', 'polyfit', 'polyval', 'fliplr', 'flipud', 'triu', 'tril', 'copyto', 'unique'):
+                     'column_stack', 'real_if_close', 'issubdtype', 'polyfit', 'polyval', 'fliplr', 'flipud', 'triu', 'tril', 'copyto', 'unique'):
             fn = getattr(self, 'np_' + name, None)
             if fn is None:
                 fn = self._unmodelled('np.' + name)
@@ -1022,8 +1022,71 @@ class Models(object):
             return math.factorial(int(c)) if c >= 0 else 0
         return ew1(f, n)
 
-    def np_allclose(self, a, b, **kw):
-        raise AnalysisError('np.allclose not modelled')
+    # tolerance comparisons: |a - b| <= atol + rtol * |b| is evaluated symbolically.  Identical terms compare close; for
+    # anything else the outcome is an undetermined value marked 'approx' (both outcomes are realisable for symbolic
+    # inputs: a == b and |a - b| large) that carries the comparison, so a rule can explore both successors or inspect
+    # the tolerance used.
+    def _isclose1(self, x, y, rtol, atol):
+        if isinstance(x, Unk) or isinstance(y, Unk):
+            return Unk(('approx', ('fn', 'isclose', getattr(x, 'expr', x), getattr(y, 'expr', y))))
+        if x is y or _same(x, y):
+            return True
+        d = s_add(x, s_neg(y))
+        if ndarr.concrete_real(d) == 0 and ndarr.concrete_real(d) is not None:
+            return True
+        lhs = self.scalar_fn('abs', d)
+        rhs = s_add(atol, s_mul(rtol, self.scalar_fn('abs', y)))
+        r = ndarr.s_cmp('<=', lhs, rhs)
+        if isinstance(r, Unk):
+            return Unk(('approx', r.expr, ('tol', rtol, atol)))
+        return r
+
+    def np_isclose(self, a, b, rtol=Fr(1, 10 ** 5), atol=Fr(1, 10 ** 8), equal_nan=False):
+        rtol = Fr(str(rtol)) if isinstance(rtol, float) else rtol
+        atol = Fr(str(atol)) if isinstance(atol, float) else atol
+        return ewn(lambda x, y: self._isclose1(x, y, rtol, atol), a, b)
+
+    def np_allclose(self, a, b, rtol=Fr(1, 10 ** 5), atol=Fr(1, 10 ** 8), equal_nan=False):
+        return self.np_all(self.np_isclose(a, b, rtol=rtol, atol=atol, equal_nan=equal_nan))
+
+    def np_array_equal(self, a, b, equal_nan=False):
+        a, b = self.np_asarray(a), self.np_asarray(b)
+        sa = a.shape if isinstance(a, Arr) else ()
+        sb = b.shape if isinstance(b, Arr) else ()
+        if sa != sb:
+            return False
+        ia = a.items() if isinstance(a, Arr) else [a]
+        ib = b.items() if isinstance(b, Arr) else [b]
+        return self.np_all(Arr((len(ia),), [True if (x is y) else ndarr.s_cmp('==', x, y) for x, y in zip(ia, ib)]))
+
+    def np_real_if_close(self, a, tol=100):
+        """Real part when every imaginary part is negligible: decided for definitely real / definitely complex
+        element kinds; otherwise the outcome is undetermined and reported as such (no guess)."""
+        a = self.np_asarray(a)
+        k = self.kind_of(a)
+        if k in ('f', 'i', 'b'):
+            return a
+        items = a.items() if isinstance(a, Arr) else [a]
+        im = [self.scalar_fn('imag', v) for v in items]
+        if all(ndarr.concrete_real(v) == 0 and ndarr.concrete_real(v) is not None for v in im):
+            return self.apply_ufunc('real', a)
+        h = self.hooks.get('real_if_close')
+        if h is not None:
+            return h(self, a, tol)
+        raise AnalysisError('np.real_if_close on values whose imaginary parts are not determined (needs a rule specific model)')
+
+    def np_cumprod(self, a, axis=None):
+        a = self.np_asarray(a)
+        if a.ndim != 1 and axis is not None:
+            raise AnalysisError('cumprod on nd array')
+        out, acc = [], 1
+        integer = all(isinstance(v, int) and not isinstance(v, bool) for v in a.ravel().items())
+        for v in a.ravel().items():
+            acc = s_mul(acc, v)
+            if integer:
+                acc = (acc + 2 ** 63) % 2 ** 64 - 2 ** 63          # int64 arithmetic wraps silently
+            out.append(acc)
+        return Arr((len(out),), out, kind='i' if integer else None)
 
     def np_trapz(self, *a, **k):
         raise InterpRaise("module 'numpy' has no attribute 'trapz'", 'AttributeError')
